@@ -90,7 +90,8 @@ def cases(draw):
     pairs = []
     for kind in shape.split("+"):
         m = draw(st.integers(1, 3 if "+" not in shape else 2))
-        attrs = draw(st.lists(st.sampled_from(KIND_ATTRS[kind]), min_size=1, max_size=m, unique=True))
+        pool = KIND_ATTRS[kind] + (["value", "value"] if kind == "Prop" else [])
+        attrs = draw(st.lists(st.sampled_from(pool), min_size=1, max_size=m, unique=True))
         for a in attrs:
             pairs.append([kind, a, draw(st.integers(0, 40)), draw(st.sampled_from(["hit", "hit", "hit", "miss"]))])
     mode = draw(st.sampled_from(["match", "match", "fuzzy"]))
